@@ -443,3 +443,30 @@ mod tests {
     );
   }
 }
+
+/// Verification hooks (only with `--cfg samlang_verif`): expose the trip-count closed form.
+#[cfg(samlang_verif)]
+pub(crate) mod verif {
+  use super::*;
+
+  /// operator: 0 = LT, 1 = LE, 2 = GT, 3 = GE
+  pub(crate) fn number_of_iterations_to_break_guard(
+    initial_guard_value: i32,
+    guard_increment_amount: i32,
+    operator: u8,
+    guarded_value: i32,
+  ) -> Option<i32> {
+    let op = match operator {
+      0 => GuardOperator::LT,
+      1 => GuardOperator::LE,
+      2 => GuardOperator::GT,
+      _ => GuardOperator::GE,
+    };
+    analyze_number_of_iterations_to_break_guard(
+      initial_guard_value,
+      guard_increment_amount,
+      op,
+      guarded_value,
+    )
+  }
+}
